@@ -111,6 +111,7 @@ private theorem ow_tb2 (op : TB2) (a b : Nat) (ψ χ : F α)
     decide_eq_true_eq] at h1 h2 ⊢
   exact ⟨⟨hk, h1.1, h2.1⟩, ⟨hab, h1.2⟩, h2.2⟩
 
+set_option linter.unusedSectionVars false in
 /-- The pastified specification has no future operator (so the online monitor accepts it)
     and its intervals are well formed. -/
 theorem C03_past_online (φ : F α) (hb : φ.bounded = true) (hwf : φ.wf = true) (R : Nat) :
@@ -140,7 +141,8 @@ theorem C03_past_online (φ : F α) (hb : φ.bounded = true) (hwf : φ.wf = true
     all_goals exact ow_delay _ _ (ow_tmp1 _ _ (by decide) (ih hb hwf _))
   | tmp2 op φ ψ ih1 ih2 =>
     simp only [F.wf, Bool.and_eq_true] at hwf
-    cases op <;> simp [F.bounded] at hb <;> simp only [past]
+    cases op <;> simp [F.bounded] at hb
+    simp only [past]
     exact ow_delay _ _ (ow_tmp2 _ _ _ (by decide) (ih1 hb.1 hwf.1 _) (ih2 hb.2 hwf.2 _))
   | tb1 op a b φ ih =>
     simp only [F.wf, Bool.and_eq_true, decide_eq_true_eq] at hwf
@@ -199,12 +201,207 @@ theorem frag_bounded (φ : F α) (hf : φ.frag = true) : φ.bounded = true := by
 
 variable [LawfulVal α]
 
+/-! ### window lemmas -/
+
+private theorem maxOver_single (k : Nat) (f : Nat → α) : maxOver k (k + 1) f = f k := by
+  apply eq_of_ub
+  intro c
+  rw [maxOver_le_iff]
+  constructor
+  · intro h; exact h k le_rfl (by omega)
+  · intro h t h1 h2
+    have : t = k := by omega
+    subst this; exact h
+
+private theorem minOver_single (k : Nat) (f : Nat → α) : minOver k (k + 1) f = f k := by
+  apply eq_of_lb
+  intro c
+  rw [le_minOver_iff]
+  constructor
+  · intro h; exact h k le_rfl (by omega)
+  · intro h t h1 h2
+    have : t = k := by omega
+    subst this; exact h
+
+/-- Re-indexing a window by a shift `d`. -/
+private theorem maxOver_shift (lo hi lo' hi' d : Nat) (g f : Nat → α)
+    (hlo : lo = lo' + d) (hhi : hi = hi' + d)
+    (e : ∀ t, lo' ≤ t → t < hi' → g (t + d) = f t) : maxOver lo hi g = maxOver lo' hi' f := by
+  apply eq_of_ub
+  intro c
+  rw [maxOver_le_iff, maxOver_le_iff]
+  constructor
+  · intro h t h1 h2
+    have := h (t + d) (by omega) (by omega)
+    rwa [e t h1 h2] at this
+  · intro h t h1 h2
+    have := h (t - d) (by omega) (by omega)
+    rw [← e (t - d) (by omega) (by omega)] at this
+    have ht : t - d + d = t := by omega
+    rwa [ht] at this
+
+private theorem minOver_shift (lo hi lo' hi' d : Nat) (g f : Nat → α)
+    (hlo : lo = lo' + d) (hhi : hi = hi' + d)
+    (e : ∀ t, lo' ≤ t → t < hi' → g (t + d) = f t) : minOver lo hi g = minOver lo' hi' f := by
+  apply eq_of_lb
+  intro c
+  rw [le_minOver_iff, le_minOver_iff]
+  constructor
+  · intro h t h1 h2
+    have := h (t + d) (by omega) (by omega)
+    rwa [e t h1 h2] at this
+  · intro h t h1 h2
+    have := h (t - d) (by omega) (by omega)
+    rw [← e (t - d) (by omega) (by omega)] at this
+    have ht : t - d + d = t := by omega
+    rwa [ht] at this
+
+/-- `once[h,h]` is a pure delay by `h` samples. -/
+private theorem rho_delay (σ : String → Nat → α) (n : Nat) (ψ : F α) (h i : Nat) (hi : h ≤ i) :
+    rho σ n (delay h ψ) i = rho σ n ψ (i - h) := by
+  unfold delay
+  split
+  · simp only [rho]
+    have e : i + 1 - h = (i - h) + 1 := by omega
+    rw [e, maxOver_single]
+  · have e : i - h = i := by omega
+    rw [e]
+
 /-- Key invariant (M-spec level): for every remaining horizon `R ≥ hor φ` and every time
     `i ≥ R` the pastified formula at `i` has the value of the original at `i - R`. -/
 theorem C03_past_eq_delayed (φ : F α) (hf : φ.frag = true) (hwf : φ.wf = true)
     (σ : String → Nat → α) (R : Nat) (hR : hor φ ≤ R) (n i : Nat) (hi : R ≤ i) (hin : i < n) :
     rho σ n (past R φ) i = rho σ n φ (i - R) := by
-  sorry
+  induction φ generalizing R i with
+  | var x =>
+    simp only [past]
+    rw [rho_delay _ _ _ _ _ hi]
+  | const c => simp only [past, rho]
+  | un op φ ih =>
+    simp only [F.frag] at hf
+    simp only [F.wf] at hwf
+    simp only [hor] at hR
+    simp only [past]
+    rw [rho_delay _ _ _ _ _ (by omega)]
+    simp only [rho]
+    rw [ih hf hwf (hor φ) le_rfl (i - (R - hor φ)) (by omega) (by omega)]
+    have e : i - (R - hor φ) - hor φ = i - R := by omega
+    rw [e]
+  | bin op φ ψ ih1 ih2 =>
+    simp only [F.frag, Bool.and_eq_true] at hf
+    simp only [F.wf, Bool.and_eq_true] at hwf
+    simp only [hor] at hR
+    simp only [past]
+    rw [rho_delay _ _ _ _ _ (by omega)]
+    simp only [rho]
+    have hm1 : hor φ ≤ max (hor φ) (hor ψ) := le_max_left _ _
+    have hm2 : hor ψ ≤ max (hor φ) (hor ψ) := le_max_right _ _
+    rw [ih1 hf.1 hwf.1 _ hm1 (i - (R - max (hor φ) (hor ψ))) (by omega) (by omega),
+      ih2 hf.2 hwf.2 _ hm2 (i - (R - max (hor φ) (hor ψ))) (by omega) (by omega)]
+    have e : i - (R - max (hor φ) (hor ψ)) - max (hor φ) (hor ψ) = i - R := by omega
+    rw [e]
+  | tmp1 op φ ih =>
+    simp only [F.wf] at hwf
+    cases op <;> simp [F.frag] at hf <;> simp only [hor] at hR <;> simp only [past]
+    case next =>
+      rw [ih hf hwf (R - 1) (by omega) i (by omega) hin]
+      simp only [rho]
+      have e : i - R + 1 = i - (R - 1) := by omega
+      rw [if_pos (by omega), e]
+    case snext =>
+      rw [ih hf hwf (R - 1) (by omega) i (by omega) hin]
+      simp only [rho]
+      have e : i - R + 1 = i - (R - 1) := by omega
+      rw [if_pos (by omega), e]
+    all_goals
+      rw [(C16_futureFree_hor φ hf).1, past_zero_of_futureFree φ hf, rho_delay _ _ _ _ _ (by omega), Nat.sub_zero]
+  | tmp2 op φ ψ ih1 ih2 =>
+    cases op <;> simp [F.frag] at hf
+    simp only [past]
+    rw [(C16_futureFree_hor φ hf.1).1, (C16_futureFree_hor ψ hf.2).1, Nat.max_self,
+      past_zero_of_futureFree φ hf.1, past_zero_of_futureFree ψ hf.2,
+      rho_delay _ _ _ _ _ (by omega), Nat.sub_zero]
+  | tb1 op a b φ ih =>
+    simp only [F.wf, Bool.and_eq_true, decide_eq_true_eq] at hwf
+    cases op <;> simp [F.frag] at hf <;> simp only [hor] at hR <;> simp only [past]
+    case once =>
+      rw [(C16_futureFree_hor φ hf).1, past_zero_of_futureFree φ hf]
+      split
+      · simp only [rho]
+        have e1 : i - (b + (R - 0)) = i - R - b := by omega
+        have e2 : i + 1 - (a + (R - 0)) = i - R + 1 - a := by omega
+        rw [e1, e2]
+      · have e : i - R = i := by omega
+        rw [e]
+    case hist =>
+      rw [(C16_futureFree_hor φ hf).1, past_zero_of_futureFree φ hf, rho_delay _ _ _ _ _ (by omega),
+        Nat.sub_zero]
+    case ev =>
+      have key : ∀ t, i - R + a ≤ t → t < i - R + b + 1 →
+          rho σ n (past (R - b) φ) (t + (R - b)) = rho σ n φ t := by
+        intro t h1 h2
+        rw [ih hf hwf.2 (R - b) (by omega) (t + (R - b)) (by omega) (by omega),
+          Nat.add_sub_cancel]
+      have hmin : min (i - R + b + 1) n = i - R + b + 1 := Nat.min_eq_left (by omega)
+      split
+      · simp only [rho]
+        rw [hmin]
+        exact maxOver_shift _ _ _ _ (R - b) _ _ (by omega) (by omega) key
+      · simp only [rho]
+        rw [hmin]
+        have hab : b = a := by omega
+        subst hab
+        rw [maxOver_single, ← key (i - R + b) (by omega) (by omega)]
+        congr 1
+        omega
+    case alw =>
+      have key : ∀ t, i - R + a ≤ t → t < i - R + b + 1 →
+          rho σ n (past (R - b) φ) (t + (R - b)) = rho σ n φ t := by
+        intro t h1 h2
+        rw [ih hf hwf.2 (R - b) (by omega) (t + (R - b)) (by omega) (by omega),
+          Nat.add_sub_cancel]
+      have hmin : min (i - R + b + 1) n = i - R + b + 1 := Nat.min_eq_left (by omega)
+      split
+      · simp only [rho]
+        rw [hmin]
+        exact minOver_shift _ _ _ _ (R - b) _ _ (by omega) (by omega) key
+      · simp only [rho]
+        rw [hmin]
+        have hab : b = a := by omega
+        subst hab
+        rw [minOver_single, ← key (i - R + b) (by omega) (by omega)]
+        congr 1
+        omega
+  | tb2 op a b φ ψ ih1 ih2 =>
+    simp only [F.wf, Bool.and_eq_true, decide_eq_true_eq] at hwf
+    cases op <;> simp [F.frag] at hf <;> simp only [hor] at hR <;> simp only [past]
+    case «until» =>
+      have hm1 : hor φ ≤ max (hor φ) (hor ψ) := le_max_left _ _
+      have hm2 : hor ψ ≤ max (hor φ) (hor ψ) := le_max_right _ _
+      have key1 : ∀ t, i - R ≤ t → t < i - R + b + 1 →
+          rho σ n (past (R - b) φ) (t + (R - b)) = rho σ n φ t := by
+        intro t h1 h2
+        rw [ih1 hf.1 hwf.1.2 (R - b) (by omega) (t + (R - b)) (by omega) (by omega),
+          Nat.add_sub_cancel]
+      have key2 : ∀ t, i - R ≤ t → t < i - R + b + 1 →
+          rho σ n (past (R - b) ψ) (t + (R - b)) = rho σ n ψ t := by
+        intro t h1 h2
+        rw [ih2 hf.2 hwf.2 (R - b) (by omega) (t + (R - b)) (by omega) (by omega),
+          Nat.add_sub_cancel]
+      have hmin : min (i - R + b + 1) n = i - R + b + 1 := Nat.min_eq_left (by omega)
+      simp only [rho]
+      rw [hmin]
+      apply maxOver_shift _ _ _ _ (R - b) _ _ (by omega) (by omega)
+      intro t h1 h2
+      rw [key2 t (by omega) h2]
+      congr 1
+      apply minOver_shift _ _ _ _ (R - b) _ _ (by omega) rfl
+      intro u h3 h4
+      exact key1 u h3 (by omega)
+    all_goals
+      rw [(C16_futureFree_hor φ hf.1).1, (C16_futureFree_hor ψ hf.2).1, Nat.max_self,
+        past_zero_of_futureFree φ hf.1, past_zero_of_futureFree ψ hf.2,
+        rho_delay _ _ _ _ _ (by omega), Nat.sub_zero]
 
 /-- C03 (partial: on `F.frag`): the online monitor of the pastified specification, fed `n`
     samples, returns at every update `i ≥ h = hor φ` the robustness of the original
@@ -215,6 +412,13 @@ theorem C03_pastified_monitor_partial (h r : Kind → Bool) (φ : F α) (hf : φ
     (σ : String → Nat → α) (n i : Nat) (hin : i < n) (hi : hor φ ≤ i) :
     ∃ outs, runOnline h r (pastify φ) (envs σ n) = .ok outs ∧
       outs[i]? = some (rho σ (i + 1) φ (i - hor φ)) := by
-  sorry
+  have hb := frag_bounded φ hf
+  obtain ⟨hon, hwf'⟩ := C03_past_online φ hb hwf (hor φ)
+  refine ⟨_, C02_run_eq_rho h r σ n (pastify φ) hon hwf' hh, ?_⟩
+  rw [tab_getElem?, if_pos hin]
+  congr 1
+  unfold pastify
+  rw [C03_past_eq_delayed φ hf hwf σ (hor φ) le_rfl n i hi hin]
+  exact C16_settled φ hb σ σ n (i + 1) (i - hor φ) (by omega) (by omega) (fun _ _ _ => rfl)
 
 end Rtamt
